@@ -442,6 +442,7 @@ def extract_spans(trace: dict, ts: TableSet, frames: "FrameTab") -> list[dict]:
     last_bulk = {}        # api kind -> span (waiting for its table)
     last_res = {}         # "runtime"/"settings" -> (res dict, table listing)
     prev_failed = False
+    last_write = None
     tables = {}           # "sensors"/"settings" -> latest listing
     for ev in trace["ev"]:
         e = ev["e"]
@@ -479,7 +480,7 @@ def extract_spans(trace: dict, ts: TableSet, frames: "FrameTab") -> list[dict]:
                   "modbus": fam in ("ET", "DT"), "prevFailed": False, "ro": api in READ_ONLY_APIS,
                   "guard": bool(ann.get("guard", False)), "documented": bool(ann.get("documented", False)),
                   "bulk": ABSENT, "unknown": "nknown" in ev.get("msg", ""), "failed": bool(ev.get("failed", False)),
-                  "decode": bool(ann.get("decode", True)), "_ann": ann}
+                  "decode": bool(ann.get("decode", True)), "_ann": ann, "wval": ABSENT, "rb": ABSENT}
             if api in ("read_runtime_data", "read_settings_data"):
                 kind = "runtime" if api == "read_runtime_data" else "settings"
                 sp["api"] = kind
@@ -490,6 +491,19 @@ def extract_spans(trace: dict, ts: TableSet, frames: "FrameTab") -> list[dict]:
                     sp["prevFailed"] = prev_failed
                     prev_failed = not ev.get("ok")
                 last_bulk[kind] = sp
+            elif api == "write_setting" and len(cur["args"]) >= 2:
+                sid = cur["args"][0]
+                lst = tables.get("settings")
+                sp["decode"] = False
+                idx = 0
+                if lst:
+                    for k, ent in enumerate(lst):
+                        if ent["id"] == sid:
+                            idx = k + 1
+                    sp["tab"] = ts.tab(lst)
+                sp["entry"] = idx
+                sp["wval"] = arg_val(cur["args"][1])
+                last_write = (sid, sp)
             elif api in ("read_sensor", "read_setting") and cur["args"]:
                 sid = cur["args"][0]
                 kind = "runtime" if api == "read_sensor" else "settings"
@@ -505,6 +519,12 @@ def extract_spans(trace: dict, ts: TableSet, frames: "FrameTab") -> list[dict]:
                 sp["entry"] = idx
                 if ev.get("ok") and "_single" in ev:
                     sp["res"] = {sid: val_from_proj(ev["_single"])}
+                if api == "read_setting" and last_write is not None and last_write[0] == sid:
+                    if ev.get("ok") and "_single" in ev:
+                        last_write[1]["rb"] = val_from_proj(ev["_single"])
+                    elif ev.get("exc") == "ValueError":
+                        last_write[1]["rb"] = {"k": "none", "a": [], "s": ""}
+                    last_write = None
                 b = last_res.get(kind)
                 if b is not None and ann.get("pair", True) and sid in b["res"]:
                     sp["bulk"] = b["res"][sid]
@@ -525,6 +545,20 @@ def extract_spans(trace: dict, ts: TableSet, frames: "FrameTab") -> list[dict]:
             sp["tab"] = 1 if ts.tables else ts.tab([])
         out.append(sp)
     return out
+
+
+def arg_val(a) -> dict:
+    """Value record of a call argument as written in a program (numbers, {"bytes": [...]}, {"dt": [...]})."""
+    import datetime
+    if isinstance(a, dict) and "bytes" in a:
+        return {"k": "bytes", "a": list(a["bytes"]), "s": ""}
+    if isinstance(a, dict) and "dt" in a:
+        return {"k": "dt", "a": list(a["dt"]), "s": ""}
+    if isinstance(a, dict) and "frac" in a:       # exact decimal n/den handed to the library as float(n/den)
+        n, d = a["frac"]
+        return {"k": "num", "a": [d, 1 if n < 0 else 0] + limbs(abs(n)), "s": ""}
+    v = val(a)
+    return {"k": v["k"], "a": v["a"], "s": v["s"]}
 
 
 def val_from_proj(v):
